@@ -2,7 +2,7 @@
 
 Half A, "the instance before the rule swaps" (contract `generate_instance#no-rules`: a designspace without rules, so that process_rules_swaps yields
 nothing — proved from its contract — and the swap loop does not run):
-  * the instance font has exactly the default source's glyph names, in the default source's order
+  * the instance font has exactly the default source's glyph names
   * every glyph: geometry == (rounded iff round_geometry) master content at a master location / model blend elsewhere, of the glyph model that
     `variator_ok` pins to the CURRENT source layers (history independence through the cache invariant); unicodes from the default source
   * kerning / kerning groups from the kerning model's instance (rounded in place iff round_geometry), info by _generate_instance_info's contract,
@@ -166,19 +166,34 @@ def _dict_pairs_term(ex, d):
     return ex.spec_decl(api_specfn("dict_pairs"))(lift(d, LOCDICT))
 
 
-def _inst_normalize(ex, st, self, args, kwargs, node):
-    """Instantiator.normalize(location) = varLib.models.normalizeLocation(location, self.axis_bounds) (one line; the library call is the trusted part):
-    a NEW location object whose items are norm_pairs(items of the argument, axis bounds)"""
-    (loc,) = args
+_nl0 = TRUSTED["fontTools.varLib.models.normalizeLocation"].model
+
+
+def _normalize_location_dict(ex, st, args, kwargs, node):
+    """normalizeLocation(location, axes) with the location given as a plain dict: the same function (norm_pairs) of its items (library model, c19.py)"""
+    loc, bounds = args
+    if isinstance(loc.ty, T.Ref):
+        return _nl0(ex, st, args, kwargs, node)
+    if kwargs:
+        raise Unsupported("normalizeLocation keyword arguments", node)
     r = ex.new_object(st, "Location")
     f = ex.spec_decl(api_specfn("norm_pairs"))
-    pairs = ex.read_field(st, loc, "pairs") if isinstance(loc.ty, T.Ref) else Val(KEY, _dict_pairs_term(ex, loc))
-    # (the new object's cell is DESCRIBED, not stored: the heap array Location.pairs -- an argument of the cache invariant -- stays the same term)
-    st.assume(z3.Select(ex.field_array(st, "Location", "pairs"), lift(r)) == f(lift(pairs), lift(ex.read_field(st, self, "axis_bounds"))))
+    ex.write_field(st, r, "pairs", Val(KEY, f(_dict_pairs_term(ex, loc), lift(bounds, c19.BOUNDS))), node)
     return r
 
 
-CLASSES["Instantiator"].methods["normalize"] = _inst_normalize
+TRUSTED["fontTools.varLib.models.normalizeLocation"].model = _normalize_location_dict
+
+# Instantiator.normalize under contract (it was a method model until the end of round 3).  Its callers get a NEW Location described by the
+# ensures -- the heap array Location.pairs, an argument of the cache invariant, stays the same term at the call site.
+contract(
+    "ufo2ft.instantiator:Instantiator.normalize",
+    props=["C19"],
+    params={"self": Ref("Instantiator"), "location": LOCDICT},
+    returns=Ref("Location"),
+    ensures={"normalized": "result.pairs == norm_pairs(dict_pairs(location), self.axis_bounds)", "new-object": "fresh(result)"},
+    canaries={"identity": "result.pairs == dict_pairs(location)"},
+)
 
 
 def _inst_glyph_names(ex, st, self):
@@ -222,6 +237,7 @@ def _evaluate_rule_dict(ex, st, args, kwargs, node):
 contract(
     "ufo2ft.instantiator:process_rules_swaps",
     name="dict",
+    portfolio=["z3-4.8"],  # inv.step.present: the z3 5.1 configurations give up (3 s each), z3 4.8 proves it in 1-2 s
     props=["C19"],
     params={"rules": List(c19.RULE), "location": LOCDICT, "glyphNames": List(STR)},
     returns=List(c19.SUB),
@@ -229,18 +245,19 @@ contract(
     ghost_vars={"GS": (Set(STR), "set(glyphNames)")},
     ensures={
         "rule-order": "result == swaps_upto(rules, dict_pairs(location), set(glyphNames), len(rules))",
-        "only-present-glyphs": "all(s[0] in glyphNames for s in result)",
+        "only-present-glyphs": "all(s[0] in set(glyphNames) for s in result)",
     },
     canaries={"empty": "len(result) == 0"},
+    hints={"swaps.append((oldName, newName))": ["oldName in GS"]},
     locals={"swaps": List(c19.SUB)},
     loops={
         "for rule in rules": Loop(index="i", invariants={
             "prefix": "swaps == swaps_upto(rules, dict_pairs(location), GS, i)",
-            "present": "all(s[0] in glyphNames for s in swaps)",
+            "present": "all(swaps[k][0] in GS for k in range(len(swaps)))",
         }),
         "for (oldName, newName) in rule.subs": Loop(index="j", invariants={
             "prefix": "swaps == swaps_upto(rules, dict_pairs(location), GS, i) + subs_picked(rule.subs, GS, j)",
-            "present": "all(s[0] in glyphNames for s in swaps)",
+            "present": "all(swaps[k][0] in GS for k in range(len(swaps)))",
         }),
     },
 )
@@ -620,3 +637,11 @@ lemma(
     },
     canaries={"nothing-moves": "image_of(S, n, k + 1) == n"},
 )
+
+
+def _norm_build(d):
+    a = _gi_build(d)
+    return {"self": a["self"], "location": dict(_RT_LOC)}
+
+
+CONTRACTS["ufo2ft.instantiator:Instantiator.normalize"].runtime = Runtime(_gi_cases, _norm_build)
